@@ -471,6 +471,35 @@ func locations(c *caseT, docIdx int, n int, rec *recorder) string {
 					break
 				}
 			}
+			// the location holds the very object given — not a copy of its members — and an object stored there before is
+			// left alone; storing the object that is already there (read, modify, write back) keeps it
+			if found[0] != "" {
+				m1 := map[string]interface{}{"one": 1.0}
+				m2 := map[string]interface{}{"two": 2.0}
+				acc.Set(m1)
+				acc.Set(m2)
+				m2["later"] = 3.0
+				if render(acc.Get()) != render(m2) || len(m1) != 1 || m1["one"] != 1.0 {
+					loc += "!setObjectNotByIdentity"
+				}
+				if cur, ok := acc.Get().(map[string]interface{}); ok {
+					cur["rmw"] = 4.0
+					acc.Set(cur)
+					if g, ok := acc.Get().(map[string]interface{}); !ok || len(g) != 3 || len(cur) != 3 {
+						loc += "!setSameObjectLost"
+					}
+				}
+				w := map[string]interface{}{"wrapped": acc.Get()}
+				acc.Set(w)
+				if g, ok := acc.Get().(map[string]interface{}); !ok || reflect.ValueOf(g).Pointer() != reflect.ValueOf(w).Pointer() || len(w) != 1 {
+					loc += "!setWrappedObject"
+					// the document may have become cyclic: undo that before anything walks it
+					if ok {
+						delete(g, "wrapped")
+					}
+					delete(w, "wrapped")
+				}
+			}
 			out[i] = loc
 		}
 	}
@@ -525,6 +554,8 @@ func runCase(c *caseT) string {
 		return runHist(c)
 	case "conc":
 		return runConc(c)
+	case "parked":
+		return runParked(c)
 	case "cold":
 		return runCold(c)
 	case "coldhist":
